@@ -129,8 +129,16 @@ func (l *Log) WithDate(date Time) *Log {
 }
 
 func (l *Log) WithIdempotencyKey(key string) *Log {
-	l.IdempotencyKey = key
+	// the key is hashed and stored as JSON text: keep it equal to what will be read back (see toValidUTF8)
+	l.IdempotencyKey = toValidUTF8(key)
 	return l
+}
+
+// toValidUTF8 replaces the bytes json.Marshal would replace. A string that is not valid UTF-8 (a header value, a
+// percent-encoded URL segment) is hashed as "\ufffd" escapes but read back as U+FFFD characters, which encode differently:
+// the entry could never be re-verified against its stored hash.
+func toValidUTF8(s string) string {
+	return strings.ToValidUTF8(s, "\uFFFD")
 }
 
 func (l *Log) ChainLog(previous *ChainedLog) *ChainedLog {
@@ -258,6 +266,11 @@ func (s *DeleteMetadataLogPayload) UnmarshalJSON(data []byte) error {
 }
 
 func NewDeleteMetadataLog(at Time, payload DeleteMetadataLogPayload) *Log {
+	// key and account address come from the URL path
+	payload.Key = toValidUTF8(payload.Key)
+	if address, ok := payload.TargetID.(string); ok {
+		payload.TargetID = toValidUTF8(address)
+	}
 	// Since the id is unique and the hash is a hash of the previous log, they
 	// will be filled at insertion time during the batch process.
 	return &Log{
